@@ -169,6 +169,32 @@ pub fn run_memory(ctx: &Ctx, which: &str) {
         });
         ctx.count(&format!("exhaustive_len{}_sequences", len), total);
     }
+    // thorough: all sequences of length 5 over a reduced alphabet (one kind per behaviour class that
+    // can interact across requests: succeed, stream, bad parameters + close, unknown interface,
+    // no dot) with all four flag combinations
+    if tier == Tier::Thorough {
+        let syms5 = symbols(&[Kind::Echo, Kind::Stream2, Kind::GenAddBadType, Kind::UnknownIface, Kind::NoDot], true);
+        let total = (syms5.len() as u64).pow(5);
+        par(nw, |w| {
+            let svc = standard_service(SvcCfg::default());
+            let mut idx = w as u64;
+            while idx < total {
+                let reqs = nth_seq(&syms5, 5, idx);
+                if which == "C01" || reqs.iter().any(|r| r.flags.oneway) {
+                    for d in [5usize, 1, 3] {
+                        let run = run_mem(&svc, &reqs, d);
+                        if which == "C01" {
+                            judge_c01(ctx, &reqs, d, &run, "memory");
+                        } else if d == 5 {
+                            judge_c04(ctx, &svc, &reqs, d, &run, "memory");
+                        }
+                    }
+                }
+                idx += nw as u64;
+            }
+        });
+        ctx.count("exhaustive_len5_reduced_alphabet_sequences", total);
+    }
     // random longer sequences over the full alphabet
     let nrand = tier.pick(20_000u64, 500_000u64);
     par(nw, |w| {
